@@ -472,6 +472,13 @@ func (s *AbsfsNFS) WriteWithContext(ctx context.Context, node *NFSNode, offset i
 
 	n, err := f.WriteAt(data, offset)
 	if err == nil {
+		// WRITE replies committed=FILE_SYNC, so the data must be on stable
+		// storage before the reply is built
+		if syncErr := f.Sync(); syncErr != nil {
+			return int64(n), fmt.Errorf("write: failed to sync %s: %w", node.path, syncErr)
+		}
+	}
+	if err == nil {
 		// Invalidate cache after successful write
 		s.attrCache.Invalidate(node.path)
 
